@@ -1,4 +1,4 @@
-CONSTANT Dev = {"CreateMisplaced", "StaleGroupIndex", "DanglingZero", "ErrUnderflow", "NamesCountDrift", "VertexNoFlag"}
+CONSTANT Dev = {"CreateMisplaced", "StaleGroupIndex", "DanglingZero", "ErrUnderflow", "NamesCountDrift", "VertexNoFlag", "AttrsNotParallel"}
 CONSTANT Budget = 10
 CONSTANT Inits = {0, 1, 2}
 CONSTANT MaxIx = 3
